@@ -31,6 +31,24 @@ func runReplicas(c *runCtx, prop string) {
 		for _, rp := range s.reps[1:] {
 			s.pull(rp, prop == "C02")
 		}
+		if i%4 == 1 {
+			// both sides merge the same pair of concurrent heads, each over its own channel, one
+			// publishes its merge commit first and the other goes on editing
+			A, B := s.reps[0], s.reps[1]
+			s.edit(A, 2)
+			s.edit(B, 2)
+			s.push(A)
+			s.pushTo(B, "alt")
+			s.pullFrom(A, "alt", prop == "C02")
+			s.pull(B, prop == "C02")
+			s.push(B)
+			s.pull(A, prop == "C02")
+			s.edit(A, 2)
+			c.count("directed-both-merge-same-heads")
+			if i%8 == 1 {
+				steps = 0 // nobody else edits afterwards: the last edit has to travel by itself
+			}
+		}
 		for st := 0; st < steps; st++ {
 			rp := pickOne(r, s.reps)
 			switch x := r.intn(10); {
@@ -39,9 +57,17 @@ func runReplicas(c *runCtx, prop string) {
 			case x < 6:
 				s.edit(rp, 3)
 			case x < 8:
-				s.push(rp)
+				if r.chance(1, 4) {
+					s.pushTo(rp, "alt") // a second channel: both sides can end up merging the same pair of heads
+				} else {
+					s.push(rp)
+				}
 			default:
-				s.pull(rp, prop == "C02")
+				if r.chance(1, 4) {
+					s.pullFrom(rp, "alt", prop == "C02")
+				} else {
+					s.pull(rp, prop == "C02")
+				}
 			}
 		}
 		quiescent := s.syncToQuiescence(prop == "C02")
